@@ -177,9 +177,8 @@ theorem andLower_correct (C : Ctx D) (nm : Nat → String) (hinj : ∀ i j, nm i
       have hpre : execs C ((andLower nm (c :: c2 :: rest) n).decls ++ (andLower nm (c :: c2 :: rest) n).stmts) ⟨σ, rows⟩ =
           execs C [.ite (.var b) [.set b c] []] ⟨σ2, rows⟩ := by
         rw [hshape]
-        simp only [execs, exec, isVecType]
-        have : ("bool".startsWith "std::vector<") = false := by decide
-        simp only [this, Bool.false_eq_true, if_false]
+        have : isVecType "bool" = false := by decide
+        simp only [execs, exec, this, Bool.false_eq_true, if_false]
         rw [execs_append, hex1]
         have hbd : σ1 b = some .uninit := hbdecl
         simp only [execs, exec, hbd, hv1]
